@@ -21,10 +21,14 @@ modules/farm, after the repairs 0c5f83b and 815496d) on top of the farm state ma
 * the two histories on which the code used to violate this (F-gen-11: a pool ending at the
   import height lost its queue entry; F-gen-12: a reward per share truncated to zero made the
   export invalid) now round-trip (`farm_regression_gen11`, `farm_regression_gen12`).
-Not carried by the module genesis and therefore not claimed: the escrow infos of pending
-community-pool proposals are outside the operation alphabet (always empty).
+* the escrow infos of pending community-pool proposals are exported (ascending proposal id) and
+  re-imported: every lookup answers the same after the round trip, the community pool, the gov
+  proposals and the bank — which the farm genesis does not carry — stay in place
+  (`farm_escrow_preserved`), and the bundle of the community-pool path (escrow-collector
+  identity, tables) holds for the imported state (`farm_cp_inv_roundTrip`).
 -/
 import Irismod.Proofs.FarmGenesisRoundTrip
+import Irismod.Proofs.FarmCpSettle
 import Irismod.Spec.C12Farm
 
 namespace Irismod.Props.C12.Farm
@@ -80,7 +84,40 @@ theorem farm_queries_preserved (s : State) (hi : Inv s) (hg : GenWF s) (hr : Seq
     (roundTrip s).seq = s.seq ∧ (roundTrip s).params = s.params ∧
     (roundTrip s).bank = s.bank ∧ (roundTrip s).height = s.height := by
   have h := roundTrip_same s hi hg hr hb
-  exact ⟨h.pools, h.farmers, h.queue, h.qnodup, h.seq, h.params, h.env.bank, h.env.height⟩
+  exact ⟨h.pools, h.farmers, h.queue, h.qnodup, h.seq, h.params, h.bank, h.height⟩
+
+/-- the escrow infos answer the same after the round trip; what the farm genesis does not carry
+(community pool, gov's proposals and sequence) is untouched -/
+theorem farm_escrow_preserved (s : State) (hi : Inv s) (hg : GenWF s) (hr : SeqInRange s) (hb : BlockStart s) :
+    (∀ pid, AMap.get? (roundTrip s).cp.escrow pid = AMap.get? s.cp.escrow pid) ∧
+    (exportGenesis (roundTrip s)).escrow = (exportGenesis s).escrow ∧
+    (roundTrip s).cp.pool = s.cp.pool ∧ (roundTrip s).cp.props = s.cp.props ∧ (roundTrip s).cp.nextId = s.cp.nextId := by
+  have h := roundTrip_same s hi hg hr hb
+  exact ⟨h.escrow, exportEscrow_congr h.escrow, h.cpPool, h.cpProps, h.cpNext⟩
+
+/-- the bundle of the community-pool path (escrow-collector identity, gov account, community pool
+covered, escrow infos ↔ live proposals) survives the round trip -/
+theorem farm_cp_inv_roundTrip (s : State) (hi : Inv s) (hc : CpInv s) (hg : GenWF s) (hr : SeqInRange s) (hb : BlockStart s) :
+    CpInv (roundTrip s) := by
+  have h := roundTrip_same s hi hg hr hb
+  obtain ⟨t1, t2, t3, t4, t5, t6⟩ := hc.tables
+  have hperm : (roundTrip s).cp.escrow.Perm s.cp.escrow :=
+    Irismod.Proofs.GenesisList.perm_of_mem h.ekeys t4 (mem_iff_of_get h.ekeys t4 h.escrow)
+  refine ⟨?_, ?_, ?_, ?_⟩
+  · intro d
+    unfold C05.expectedEscrow AMap.sumBy
+    rw [h.bank, Irismod.Proofs.GenesisList.sumIf_perm _ _ hperm]
+    exact hc.escrow d
+  · unfold C05.GovAccount C05.expectedGov
+    rw [h.bank, h.cpProps]; exact hc.gov
+  · intro d
+    unfold C05.cpoolOf
+    rw [h.bank, h.cpPool]; exact hc.backed d
+  · refine ⟨?_, ?_, ?_, h.ekeys, by rw [h.cpProps]; exact t5, ?_⟩
+    · intro pid e hge; rw [h.escrow] at hge; rw [h.cpProps]; exact t1 pid e hge
+    · intro pid pr hgp ha; rw [h.cpProps] at hgp; rw [h.escrow]; exact t2 pid pr hgp ha
+    · intro pid hle; rw [h.cpNext] at hle; rw [h.cpProps, h.escrow]; exact t3 pid hle
+    · intro pid pr hgp ha; rw [h.cpProps] at hgp; exact t6 pid pr hgp ha
 
 /-- the next pool gets the same id with or without the round trip -/
 theorem farm_next_pool_same_id (s : State) (hi : Inv s) (hg : GenWF s) (hr : SeqInRange s) (hb : BlockStart s) :
@@ -95,7 +132,7 @@ theorem farm_expired_preserved (s : State) (hi : Inv s) (hg : GenWF s) (hr : Seq
   have ha := active_same h id p
   unfold C06.active at ha
   unfold expired
-  rw [h.env.height, ha]
+  rw [h.height, ha]
 
 /-- the pending reward of every farmer (stake × stored reward per share − debt, rule by rule)
 and the debt the next interaction would record are the same -/
@@ -120,7 +157,7 @@ theorem farm_inv_roundTrip (s : State) (hi : Inv s) (hg : GenWF s) (hr : SeqInRa
   obtain ⟨i, g⟩ := inv_same h hi hg
   refine ⟨i, g, ?_⟩
   intro id p hp hend
-  rw [h.pools] at hp; rw [h.env.height] at hend
+  rw [h.pools] at hp; rw [h.height] at hend
   rw [active_same h]; exact hb id p hp hend
 
 /-! ### regression witnesses of the two repaired findings -/
